@@ -1,5 +1,1248 @@
-//! (stub; being written)
+//! C03 — a successful compile never writes a file that differs from what was asked.
+//!
+//! Bounded exhaustive enumeration: for every format class a small valid base file is described by a
+//! *model* (a list of explicitly requested field values); one field deviates at a time (D = 1; pairs
+//! of fields, D = 2, in thorough) over a boundary value set derived from the STORED width of that
+//! field.  The model is rendered to source text (+ a user mapfile), compiled with the real truth
+//! code, and on success (i) re-read with truth's own decompiler and (ii) walked with the independent
+//! M2 walkers; every field the source explicitly requested is compared with what is in the file.
+//! The expected values come from the generator (it knows what it wrote into the source), never
+//! from truth.
 #![allow(dead_code)]
-use crate::common::Report;
-pub fn run(tier: &str) -> Report { Report::new("C03", tier, "model_checking") }
-pub fn replay(_detail: &serde_json::Value) -> i32 { 2 }
+
+use std::collections::{BTreeMap, BTreeSet, HashMap};
+
+use serde_json::{json, Value};
+use truth::Game;
+
+use crate::common::{par_map, Report};
+use crate::drive::{self, CompileOpts, DecompOpts, Kind, Tool};
+use crate::m2::{self, InstrLayout};
+
+// =============================================================================================
+// model
+
+#[derive(Debug, Clone, PartialEq, Eq, PartialOrd, Ord, Hash)]
+pub struct Dev { pub field: String, pub value: i64 }
+
+#[derive(Debug, Clone, Copy, PartialEq, Eq)]
+enum FK {
+    /// integer field stored in `bits` bits
+    Int,
+    /// a field the source accepts but this format has no slot for
+    NoSlot,
+    /// number of items, realised by generating that many items; header field has `bits` bits (0 = no count field)
+    Count,
+    /// fixed-size NUL-terminated string buffer of `bits/8` bytes; value = string length in bytes
+    FixedStr,
+    /// string argument `z(bs=4)` of the given length
+    ArgStr,
+    /// `@blob` of the given byte length
+    Blob,
+    /// difficulty mask byte (all 256 values are expressible; control only)
+    Diff,
+    /// ANM entry layout family: value = 8 * n_entries + bitmask(entry i has an embedded image)
+    Layout,
+    /// boolean-valued source field
+    Bool,
+    /// MSG `table_len`
+    TableLen,
+}
+
+#[derive(Debug, Clone)]
+struct FieldDef { name: String, bits: u32, signed: bool, kind: FK }
+
+fn fd(name: &str, bits: u32, signed: bool, kind: FK) -> FieldDef { FieldDef { name: name.to_string(), bits, signed, kind } }
+
+/// per-script-language instruction layout facts (from the layout table in m2.rs)
+#[derive(Debug, Clone, Copy)]
+struct SCfg {
+    pfx: &'static str,
+    layout: InstrLayout,
+    time_bits: u32,
+    op_bits: u32,
+    mask_bits: u32,
+    has_diff: bool,
+    has_arg0: bool,
+    /// largest value of the size field, and how many header bytes the size field counts
+    size_max: i64,
+    size_hdr: i64,
+    fixed12: bool,
+    timeline: bool,
+    op_fill: i64, op_small: i64, op_str: i64, op_blob: i64, op_dev: i64,
+}
+
+impl SCfg {
+    fn max_args(&self) -> i64 { (self.size_max - self.size_hdr) / 4 * 4 }
+}
+
+fn scfg(layout: InstrLayout, pfx: &'static str) -> SCfg {
+    use InstrLayout::*;
+    let small_ops = matches!(layout, Anm06 | Msg);
+    let (op_fill, op_small, op_str, op_blob, op_dev) = if small_ops { (100, 101, 102, 103, 50) } else { (3000, 3001, 3002, 3003, 2000) };
+    let (time_bits, op_bits, mask_bits, has_diff, has_arg0, size_max, size_hdr) = match layout {
+        Anm06 | Msg => (16, 8, 0, false, false, 255, 0),
+        Anm07 => (16, 16, 16, false, false, 65535, 8),
+        Std06 => (32, 16, 0, false, false, 12, 0),
+        Std10 => (32, 16, 0, false, false, 65535, 8),
+        Ecl06 => (32, 16, 0, true, false, 32767, 12),
+        Ecl07 => (32, 16, 16, true, false, 32767, 12),
+        Timeline06 => (16, 16, 0, false, true, 65535, 8),
+        Timeline08 => (32, 16, 0, true, false, 255, 8),
+    };
+    SCfg { pfx, layout, time_bits, op_bits, mask_bits, has_diff, has_arg0, size_max, size_hdr, fixed12: layout == Std06,
+           timeline: matches!(layout, Timeline06 | Timeline08), op_fill, op_small, op_str, op_blob, op_dev }
+}
+
+#[derive(Debug, Clone)]
+struct Class {
+    name: &'static str,
+    kind: Kind,
+    game: Game,
+    fields: Vec<FieldDef>,
+    scripts: Vec<SCfg>,
+}
+
+fn g(s: &str) -> Game { s.parse::<Game>().expect("game") }
+
+fn script_fields(c: &SCfg, out: &mut Vec<FieldDef>) {
+    let p = c.pfx;
+    let n = |s: &str| format!("{p}{s}");
+    out.push(fd(&n("time"), c.time_bits, true, FK::Int));
+    out.push(fd(&n("opcode"), c.op_bits, c.op_bits == 8, FK::Int));
+    out.push(fd(&n("opcode_map"), c.op_bits, c.op_bits == 8, FK::Int));
+    if c.mask_bits > 0 { out.push(fd(&n("mask"), c.mask_bits, false, FK::Int)); } else { out.push(fd(&n("mask"), 0, false, FK::NoSlot)); }
+    if c.has_diff { out.push(fd(&n("diff"), 8, false, FK::Diff)); }
+    if c.has_arg0 { out.push(fd(&n("arg0"), 16, true, FK::Int)); }
+    out.push(fd(&n("arg_s"), 16, true, FK::Int));
+    out.push(fd(&n("arg_u"), 16, false, FK::Int));
+    out.push(fd(&n("arg_c"), 8, true, FK::Int));
+    out.push(fd(&n("arg_b"), 8, false, FK::Int));
+    if !c.fixed12 { out.push(fd(&n("str_len"), 0, false, FK::ArgStr)); }
+    out.push(fd(&n("blob_len"), 0, false, FK::Blob));
+}
+
+fn classes(thorough: bool) -> Vec<Class> {
+    let mut v = vec![];
+    // ---- ANM
+    for (name, game, always) in [("anm-v0", "th06", true), ("anm-v2", "th07", true), ("anm-v4", "th10", true), ("anm-v7", "th12", true), ("anm-v8", "th17", false)] {
+        if !always && !thorough { continue; }
+        let game = g(game);
+        let old = m2::anm_has_old_header(game);
+        let hb = if old { 32 } else { 16 };
+        let sc = scfg(m2::anm_instr_layout(game), "");
+        let mut f = vec![
+            fd("rt_width", hb, false, FK::Int), fd("rt_height", hb, false, FK::Int), fd("rt_format", hb, false, FK::Int),
+            fd("img_width", 16, false, FK::Int), fd("img_height", 16, false, FK::Int), fd("img_format", 16, false, FK::Int),
+            fd("memory_priority", 32, false, FK::Int),
+            fd("sprite_id", 32, false, FK::Int), fd("script_id", 32, true, FK::Int),
+            fd("n_sprites", hb, false, FK::Count), fd("n_scripts", hb, false, FK::Count),
+            fd("multi-entry-no-thtx", 0, false, FK::Layout),
+        ];
+        if old {
+            f.push(fd("colorkey", 32, false, FK::Int));
+            f.push(fd("offset_x", 0, false, FK::NoSlot)); f.push(fd("offset_y", 0, false, FK::NoSlot)); f.push(fd("low_res_scale", 0, false, FK::NoSlot));
+        } else {
+            f.push(fd("offset_x", 16, false, FK::Int)); f.push(fd("offset_y", 16, false, FK::Int)); f.push(fd("low_res_scale", 16, false, FK::Bool));
+            f.push(fd("colorkey", 0, false, FK::NoSlot));
+        }
+        script_fields(&sc, &mut f);
+        v.push(Class { name, kind: Kind::Anm, game, fields: f, scripts: vec![sc] });
+    }
+    // ---- STD
+    for (name, game, always) in [("std-06", "th06", true), ("std-08", "th08", true), ("std-10", "th12", true)] {
+        if !always && !thorough { continue; }
+        let game = g(game);
+        let sc = scfg(m2::std_instr_layout(game), "");
+        let mut f = vec![
+            fd("unknown", 32, false, FK::Int), fd("layer", 16, false, FK::Int), fd("anm_script", 16, false, FK::Int),
+            fd("inst_unknown", 16, false, FK::Int),
+            fd("n_objects", 16, false, FK::Count), fd("n_quads", 16, false, FK::Count), fd("n_instances", 0, false, FK::Count),
+        ];
+        if m2::std_is_06_format(game) {
+            f.push(fd("stage_name_len", 128 * 8, false, FK::FixedStr));
+            f.push(fd("bgm_name_len", 128 * 8, false, FK::FixedStr));
+            f.push(fd("bgm_path_len", 128 * 8, false, FK::FixedStr));
+        } else {
+            f.push(fd("anm_path_len", 128 * 8, false, FK::FixedStr));
+        }
+        script_fields(&sc, &mut f);
+        v.push(Class { name, kind: Kind::Std, game, fields: f, scripts: vec![sc] });
+    }
+    // ---- MSG
+    for (name, game) in [("msg-06", "th06"), ("msg-09", "th09")] {
+        let game = g(game);
+        let sc = scfg(InstrLayout::Msg, "");
+        let mut f = vec![
+            if m2::msg_table_has_flags(game) { fd("flags", 32, false, FK::Int) } else { fd("flags", 0, false, FK::NoSlot) },
+            fd("n_entries", 32, false, FK::Count), fd("table_len", 32, false, FK::TableLen),
+        ];
+        script_fields(&sc, &mut f);
+        v.push(Class { name, kind: Kind::Msg, game, fields: f, scripts: vec![sc] });
+    }
+    // ---- mission
+    {
+        let f = vec![fd("stage", 16, false, FK::Int), fd("scene", 16, false, FK::Int), fd("face", 32, false, FK::Int), fd("point", 32, false, FK::Int),
+                     fd("text_len", 64 * 8, false, FK::FixedStr), fd("n_entries", 32, false, FK::Count)];
+        v.push(Class { name: "mission-095", kind: Kind::Mission, game: g("th095"), fields: f, scripts: vec![] });
+        let f = vec![fd("stage", 16, false, FK::Int), fd("scene", 16, false, FK::Int), fd("player", 16, false, FK::Int),
+                     fd("unknown_1", 8, false, FK::Int), fd("unknown_2", 8, false, FK::Int), fd("point_1", 32, false, FK::Int), fd("point_2", 32, false, FK::Int),
+                     fd("furigana", 32, false, FK::Int), fd("text_len", 64 * 8, false, FK::FixedStr), fd("n_entries", 32, false, FK::Count)];
+        v.push(Class { name: "mission-125", kind: Kind::Mission, game: g("th125"), fields: f, scripts: vec![] });
+    }
+    // ---- old ECL (+ timelines)
+    for (name, game, always) in [("ecl-06", "th06", true), ("ecl-07", "th07", true), ("ecl-08", "th08", true), ("ecl-095", "th095", true), ("ecl-09", "th09", false)] {
+        if !always && !thorough { continue; }
+        let game = g(game);
+        let sub = scfg(m2::ecl_sub_layout(game), "sub.");
+        let tl = scfg(m2::ecl_timeline_layout(game), "tl.");
+        let mut f = vec![fd("n_subs", 16, false, FK::Count), fd("n_timelines", if game == g("th06") { 0 } else { 16 }, false, FK::Count)];
+        script_fields(&sub, &mut f);
+        script_fields(&tl, &mut f);
+        v.push(Class { name, kind: Kind::Ecl, game, fields: f, scripts: vec![sub, tl] });
+    }
+    v
+}
+
+// =============================================================================================
+// value sets
+
+fn dedup(mut v: Vec<i64>) -> Vec<i64> {
+    let mut seen = BTreeSet::new();
+    v.retain(|x| seen.insert(*x));
+    v
+}
+
+/// (min, max) of the nominal interpretation, and of the lenient (either signedness) one
+fn nominal_range(bits: u32, signed: bool) -> (i64, i64) {
+    if signed { (-(1i64 << (bits - 1)), (1i64 << (bits - 1)) - 1) } else { (0, (1i64 << bits) - 1) }
+}
+fn lenient_fits(v: i64, bits: u32) -> bool {
+    if bits >= 64 { return true; }
+    v >= -(1i64 << (bits - 1)) && v <= (1i64 << bits) - 1
+}
+fn strict_fits(v: i64, bits: u32, signed: bool) -> bool { let (lo, hi) = nominal_range(bits, signed); v >= lo && v <= hi }
+
+fn int_values(bits: u32) -> Vec<i64> {
+    if bits >= 32 {
+        return vec![0, 1, i32::MAX as i64 - 1, i32::MAX as i64, -1, i32::MIN as i64 + 1, i32::MIN as i64, 1i64 << 31, u32::MAX as i64, 1i64 << 32, (1i64 << 32) + 5];
+    }
+    let umax = (1i64 << bits) - 1;
+    let smax = (1i64 << (bits - 1)) - 1;
+    let smin = -(1i64 << (bits - 1));
+    dedup(vec![0, 1, smax - 1, smax, smax + 1, umax - 1, umax, umax + 1, umax + 6, 2 * umax, 2 * (umax + 1), -1, smin, smin - 1, -umax, -(umax + 1),
+               i32::MIN as i64, i32::MAX as i64])
+}
+
+fn len_values(max_args: i64, string: bool) -> Vec<i64> {
+    let a = max_args;
+    let mut v: Vec<i64> = if string {
+        // string of L bytes occupies (L/4 + 1) * 4 bytes
+        vec![0, 3, 4, a - 5, a - 1, a, a + 3, a + 4, a + 252, 2 * a, 65531, 65532, 65535, 65536, 70000]
+    } else {
+        vec![0, 1, 4, 8, a - 4, a - 1, a, a + 1, a + 4, a + 8, 2 * a, 248, 252, 256, 260, 32752, 32756, 32760, 32768, 65520, 65528, 65532, 65536, 65540]
+    };
+    v.retain(|&x| x >= 0);
+    dedup(v)
+}
+
+fn field_values(cl: &Class, f: &FieldDef, thorough: bool) -> Vec<i64> {
+    let sc = cl.scripts.iter().find(|s| f.name.starts_with(s.pfx)).or(cl.scripts.first());
+    match f.kind {
+        FK::Int => {
+            let mut v = int_values(f.bits);
+            if f.name == "img_width" || f.name == "img_height" { v.retain(|&x| (0..=200_000).contains(&x)); } // see `assumptions`
+            if f.name.ends_with("opcode_map") { v.retain(|x| x.abs() < (1 << 31)); v.extend([65536 + 100, -65535]); }
+            dedup(v)
+        },
+        FK::NoSlot => vec![0, 1, 7],
+        FK::Count => {
+            if f.name == "n_timelines" {
+                let mut v = vec![0, 1, 2, 3, 4, 14, 15, 16, 17];
+                if thorough && cl.name == "ecl-09" { v.extend([255, 256, 65535, 65536, 65537]); }
+                return v;
+            }
+            let mut v = vec![0, 1, 2, 3, 255, 256, 257];
+            if thorough { if f.bits == 16 { v.extend([65535, 65536, 65537]); } else { v.push(65536); } }
+            v
+        },
+        FK::FixedStr => { let cap = (f.bits / 8) as i64; vec![0, 1, cap - 2, cap - 1, cap, cap + 1, 2 * cap - 1, 2 * cap, 300] },
+        FK::ArgStr => len_values(sc.map(|s| s.max_args()).unwrap_or(252), true),
+        FK::Blob => {
+            let s = sc.expect("script cfg");
+            if s.fixed12 { vec![0, 4, 8, 12, 16, 20] } else { len_values(s.max_args(), false) }
+        },
+        FK::Diff => vec![0, 1, 0x0f, 0x80, 0xf0, 0xff],
+        FK::Layout => vec![8, 9, 16, 17, 18, 19, 24, 25, 26, 27, 28, 29, 30, 31],
+        FK::Bool => vec![0, 1],
+        FK::TableLen => { let mut v = vec![0, 1, 2, 3, 4, 255, 256]; if thorough { v.push(65536); } v },
+    }
+}
+
+/// reduced value set for D = 2
+fn pair_values(cl: &Class, f: &FieldDef) -> Vec<i64> {
+    match f.kind {
+        FK::Int if f.bits >= 32 => vec![-1, i32::MAX as i64],
+        FK::Int => { let umax = (1i64 << f.bits) - 1; let mut v = vec![umax, umax + 1, -1]; if f.name.starts_with("img_") { v.retain(|&x| x >= 0); } v },
+        FK::NoSlot => vec![],
+        FK::Count => if f.name == "n_timelines" { vec![0, 2] } else { vec![0, 3] },
+        FK::FixedStr => { let cap = (f.bits / 8) as i64; vec![cap - 1, cap] },
+        FK::ArgStr | FK::Blob => {
+            let sc = cl.scripts.iter().find(|s| f.name.starts_with(s.pfx)).unwrap();
+            if sc.fixed12 { vec![] } else if f.kind == FK::ArgStr { vec![sc.max_args() - 1, sc.max_args()] } else { vec![sc.max_args(), sc.max_args() + 4] }
+        },
+        FK::Diff => vec![0x81],
+        FK::Layout => vec![],
+        FK::Bool => vec![],
+        FK::TableLen => vec![],
+    }
+}
+
+fn is_heavy(f: &FieldDef, v: i64) -> bool { f.kind == FK::Count && v >= 60000 || f.kind == FK::TableLen && v >= 60000 }
+
+/// the stated non-trivial rule: the deviating value does not fit the stored width of its field
+fn is_nontrivial(cl: &Class, f: &FieldDef, v: i64) -> bool {
+    match f.kind {
+        FK::Int => !lenient_fits(v, f.bits),
+        FK::Count => f.bits > 0 && f.bits < 64 && !strict_fits(v, f.bits, false),
+        FK::FixedStr => v >= (f.bits / 8) as i64,
+        FK::ArgStr => { let sc = cl.scripts.iter().find(|s| f.name.starts_with(s.pfx)).unwrap(); (v / 4 + 1) * 4 > sc.size_max - sc.size_hdr },
+        FK::Blob => { let sc = cl.scripts.iter().find(|s| f.name.starts_with(s.pfx)).unwrap(); if sc.fixed12 { v != 12 } else { v > sc.size_max - sc.size_hdr } },
+        _ => false,
+    }
+}
+
+// =============================================================================================
+// rendering: model -> (source, mapfile, wants)
+
+#[derive(Debug, Clone, PartialEq)]
+enum Want {
+    Int(i64),
+    Bytes(Vec<u8>),
+    /// integer of `width` bytes at `off` inside the blob stored under the same key
+    ArgInt { off: usize, width: usize, value: i64 },
+    /// the source set a field this format has no slot for
+    NoSlot(i64),
+}
+
+struct Rendered { src: String, mapfile: String, wants: Vec<(String, Want)> }
+
+struct Ov<'a>(&'a [Dev]);
+impl<'a> Ov<'a> {
+    fn get(&self, f: &str) -> Option<i64> { self.0.iter().find(|d| d.field == f).map(|d| d.value) }
+    fn or(&self, f: &str, d: i64) -> i64 { self.get(f).unwrap_or(d) }
+}
+
+#[derive(Default)]
+struct MapB { magic: &'static str, sigs: Vec<(i64, String)>, names: Vec<(i64, String)>, tl_sigs: Vec<(i64, String)>, tl_names: Vec<(i64, String)> }
+impl MapB {
+    fn sig(&mut self, timeline: bool, op: i64, s: &str) {
+        let v = if timeline { &mut self.tl_sigs } else { &mut self.sigs };
+        if !v.iter().any(|x| x.0 == op) { v.push((op, s.to_string())); }
+    }
+    fn name(&mut self, timeline: bool, op: i64, s: &str) { if timeline { self.tl_names.push((op, s.into())); } else { self.names.push((op, s.into())); } }
+    fn render(&self) -> String {
+        let mut o = format!("{}\n", self.magic);
+        for (hdr, v) in [("!ins_names", &self.names), ("!ins_signatures", &self.sigs), ("!timeline_ins_names", &self.tl_names), ("!timeline_ins_signatures", &self.tl_sigs)] {
+            if v.is_empty() { continue; }
+            o += hdr; o.push('\n');
+            for (k, s) in v { o += &format!("{k} {s}\n"); }
+        }
+        o
+    }
+}
+
+fn blob_pattern(n: usize) -> Vec<u8> { (0..n).map(|i| (i.wrapping_mul(7).wrapping_add(1) & 0xff) as u8).collect() }
+fn hex(b: &[u8]) -> String { let mut s = String::with_capacity(b.len() * 2); for x in b { s += &format!("{x:02x}"); } s }
+fn le(v: i64, n: usize) -> Vec<u8> { (v as u64).to_le_bytes()[..n].to_vec() }
+fn a_string(n: i64) -> String { "a".repeat(n.max(0) as usize) }
+
+fn simple_script_body(c: &SCfg, map: &mut MapB, key: &str, wants: &mut Vec<(String, Want)>) -> String {
+    map.sig(c.timeline, c.op_fill, if c.fixed12 { "SSS" } else { "S" });
+    wants.push((format!("{key}.n"), Want::Int(1)));
+    wants.push((format!("{key}.i0.time"), Want::Int(0)));
+    wants.push((format!("{key}.i0.opcode"), Want::Int(c.op_fill)));
+    if c.fixed12 {
+        wants.push((format!("{key}.i0.args"), Want::Bytes([le(1, 4), le(2, 4), le(3, 4)].concat())));
+        format!("    ins_{}(1, 2, 3);\n", c.op_fill)
+    } else {
+        wants.push((format!("{key}.i0.args"), Want::Bytes(le(1, 4))));
+        format!("    ins_{}(1);\n", c.op_fill)
+    }
+}
+
+/// The probe script: filler; the deviating instruction; small-argument instruction; string; blob; filler.
+fn probe_script_body(c: &SCfg, ov: &Ov, map: &mut MapB, key: &str, wants: &mut Vec<(String, Want)>) -> String {
+    let f = |n: &str| format!("{}{n}", c.pfx);
+    let mut s = String::new();
+    let mut k = 0usize;
+    let mut push_common = |wants: &mut Vec<(String, Want)>, k: usize, time: i64, opcode: i64| {
+        wants.push((format!("{key}.i{k}.time"), Want::Int(time)));
+        wants.push((format!("{key}.i{k}.opcode"), Want::Int(opcode)));
+    };
+    let fill_sig = if c.fixed12 { "SSS" } else { "S" };
+    map.sig(c.timeline, c.op_fill, fill_sig);
+
+    // i0: filler at time 0
+    if c.fixed12 { s += &format!("    ins_{}(1, 2, 3);\n", c.op_fill); wants.push((format!("{key}.i{k}.args"), Want::Bytes([le(1, 4), le(2, 4), le(3, 4)].concat()))); }
+    else { s += &format!("    ins_{}(1);\n", c.op_fill); wants.push((format!("{key}.i{k}.args"), Want::Bytes(le(1, 4)))); }
+    push_common(wants, k, 0, c.op_fill);
+    k += 1;
+
+    // i1: the deviating instruction
+    let time = ov.or(&f("time"), 10);
+    s += &format!("{time}:\n");
+    let via_name = ov.get(&f("opcode_map"));
+    let opcode = via_name.unwrap_or_else(|| ov.or(&f("opcode"), c.op_dev));
+    let callee = match via_name {
+        Some(n) => { map.name(c.timeline, n, "devins"); "devins".to_string() },
+        None => format!("ins_{opcode}"),
+    };
+    map.sig(c.timeline, opcode, fill_sig);
+    let mut pseudo = String::new();
+    let mask = match ov.get(&f("mask")) { Some(m) => Some(m), None if c.mask_bits > 0 => Some(1), None => None };
+    if let Some(m) = mask {
+        pseudo += &format!("@mask={m}, ");
+        wants.push((format!("{key}.i{k}.mask"), if c.mask_bits > 0 { Want::Int(m) } else { Want::NoSlot(m) }));
+    }
+    if c.has_arg0 {
+        let a = ov.or(&f("arg0"), 3);
+        pseudo += &format!("@arg0={a}, ");
+        wants.push((format!("{key}.i{k}.arg0"), Want::Int(a)));
+    }
+    let diff = ov.get(&f("diff"));
+    if let Some(d) = diff {
+        let digits: String = (0..8).filter(|b| d >> b & 1 == 1).map(|b| char::from(b'0' + b as u8)).collect();
+        s += &format!("    {{\"-*+{digits}\"}}:\n");
+        wants.push((format!("{key}.i{k}.diff"), Want::Int(d)));
+    }
+    if c.fixed12 { s += &format!("    {callee}({pseudo}7, 8, 9);\n"); wants.push((format!("{key}.i{k}.args"), Want::Bytes([le(7, 4), le(8, 4), le(9, 4)].concat()))); }
+    else { s += &format!("    {callee}({pseudo}7);\n"); wants.push((format!("{key}.i{k}.args"), Want::Bytes(le(7, 4)))); }
+    push_common(wants, k, time, opcode);
+    if diff.is_some() { s += "    {\"*\"}:\n"; }
+    k += 1;
+
+    // i2: small arguments
+    let (a_s, a_u, a_c, a_b) = (ov.or(&f("arg_s"), -2), ov.or(&f("arg_u"), 2), ov.or(&f("arg_c"), -3), ov.or(&f("arg_b"), 3));
+    if c.fixed12 { map.sig(c.timeline, c.op_small, "sucb--S"); s += &format!("    ins_{}({a_s}, {a_u}, {a_c}, {a_b}, 9);\n", c.op_small); }
+    else { map.sig(c.timeline, c.op_small, "sucb--"); s += &format!("    ins_{}({a_s}, {a_u}, {a_c}, {a_b});\n", c.op_small); }
+    push_common(wants, k, time, c.op_small);
+    for (nm, off, width, value) in [("arg_s", 0, 2, a_s), ("arg_u", 2, 2, a_u), ("arg_c", 4, 1, a_c), ("arg_b", 5, 1, a_b)] {
+        wants.push((format!("{key}.i{k}.args#{nm}"), Want::ArgInt { off, width, value }));
+    }
+    wants.push((format!("{key}.i{k}.argsize"), Want::Int(if c.fixed12 { 12 } else { 8 })));
+    k += 1;
+
+    // i3: string argument
+    if !c.fixed12 {
+        let l = ov.or(&f("str_len"), 5);
+        map.sig(c.timeline, c.op_str, "z(bs=4)");
+        s += &format!("    ins_{}(\"{}\");\n", c.op_str, a_string(l));
+        let mut b = vec![b'a'; l as usize];
+        b.push(0);
+        while b.len() % 4 != 0 { b.push(0); }
+        wants.push((format!("{key}.i{k}.args"), Want::Bytes(b)));
+        push_common(wants, k, time, c.op_str);
+        k += 1;
+    }
+
+    // i4: blob
+    let bl = ov.or(&f("blob_len"), if c.fixed12 { 12 } else { 8 });
+    let blob = blob_pattern(bl as usize);
+    s += &format!("    ins_{}(@blob=\"{}\");\n", c.op_blob, hex(&blob));
+    wants.push((format!("{key}.i{k}.args"), Want::Bytes(blob)));
+    push_common(wants, k, time, c.op_blob);
+    k += 1;
+
+    // i5: filler at time 20
+    s += "20:\n";
+    if c.fixed12 { s += &format!("    ins_{}(4, 5, 6);\n", c.op_fill); wants.push((format!("{key}.i{k}.args"), Want::Bytes([le(4, 4), le(5, 4), le(6, 4)].concat()))); }
+    else { s += &format!("    ins_{}(2);\n", c.op_fill); wants.push((format!("{key}.i{k}.args"), Want::Bytes(le(2, 4)))); }
+    push_common(wants, k, 20, c.op_fill);
+    k += 1;
+    wants.push((format!("{key}.n"), Want::Int(k as i64)));
+    s
+}
+
+fn f32w(x: f32) -> Want { Want::Int(x.to_bits() as i64) }
+
+fn render(cl: &Class, devs: &[Dev]) -> Rendered {
+    let ov = Ov(devs);
+    match cl.kind {
+        Kind::Anm => render_anm(cl, &ov),
+        Kind::Std => render_std(cl, &ov),
+        Kind::Msg | Kind::End => render_msg(cl, &ov),
+        Kind::Mission => render_mission(cl, &ov),
+        Kind::Ecl => render_ecl(cl, &ov),
+    }
+}
+
+fn render_anm(cl: &Class, ov: &Ov) -> Rendered {
+    let sc = &cl.scripts[0];
+    let old = m2::anm_has_old_header(cl.game);
+    let mut map = MapB { magic: "!anmmap", ..Default::default() };
+    let mut w: Vec<(String, Want)> = vec![];
+    let mut s = String::new();
+    let (n_entries, dummy_mask) = match ov.get("multi-entry-no-thtx") { Some(v) => ((v / 8) as usize, (v % 8) as u32), None => (1, 1) };
+    w.push(("n_entries".into(), Want::Int(n_entries as i64)));
+    for e in 0..n_entries {
+        let first = e == 0;
+        let dummy = dummy_mask >> e & 1 == 1;
+        let getf = |name: &str, d: i64| if first { ov.or(name, d) } else { d };
+        let (iw, ih, ifmt) = (getf("img_width", 8), getf("img_height", 4), getf("img_format", 3));
+        let (rw, rh, rf) = (getf("rt_width", 16), getf("rt_height", 8), getf("rt_format", 3));
+        let mp = getf("memory_priority", 11);
+        s += "entry {\n";
+        s += &format!("    path: \"subdir/e{e}.png\",\n");
+        w.push((format!("e{e}.path"), Want::Bytes(format!("subdir/e{e}.png").into_bytes())));
+        s += &format!("    has_data: {},\n", if dummy { "\"dummy\"" } else { "false" });
+        w.push((format!("e{e}.has_data"), Want::Int(dummy as i64)));
+        w.push((format!("e{e}.thtx"), Want::Int(dummy as i64)));
+        s += &format!("    img_width: {iw}, img_height: {ih}, img_format: {ifmt},\n");
+        if dummy {
+            w.push((format!("e{e}.thtx.width"), Want::Int(iw)));
+            w.push((format!("e{e}.thtx.height"), Want::Int(ih)));
+            w.push((format!("e{e}.thtx.format"), Want::Int(ifmt)));
+        }
+        s += &format!("    rt_width: {rw}, rt_height: {rh}, rt_format: {rf},\n");
+        w.push((format!("e{e}.rt_width"), Want::Int(rw)));
+        w.push((format!("e{e}.rt_height"), Want::Int(rh)));
+        w.push((format!("e{e}.rt_format"), Want::Int(rf)));
+        s += &format!("    memory_priority: {mp},\n");
+        w.push((format!("e{e}.memory_priority"), Want::Int(mp)));
+        // header-shape dependent fields
+        let ck = if first { ov.get("colorkey") } else { None };
+        let (ox, oy, lrs) = if first { (ov.get("offset_x"), ov.get("offset_y"), ov.get("low_res_scale")) } else { (None, None, None) };
+        if old {
+            let ck = ck.unwrap_or(0x11223344);
+            s += &format!("    colorkey: {ck},\n");
+            w.push((format!("e{e}.colorkey"), Want::Int(ck)));
+            if let Some(x) = ox { s += &format!("    offset_x: {x},\n"); w.push((format!("e{e}.offset_x"), Want::NoSlot(x))); }
+            if let Some(x) = oy { s += &format!("    offset_y: {x},\n"); w.push((format!("e{e}.offset_y"), Want::NoSlot(x))); }
+            if let Some(x) = lrs { s += &format!("    low_res_scale: {},\n", x != 0); w.push((format!("e{e}.low_res_scale"), Want::NoSlot(x))); }
+        } else {
+            let (ox, oy, lrs) = (ox.unwrap_or(3), oy.unwrap_or(5), lrs.unwrap_or(1));
+            s += &format!("    offset_x: {ox}, offset_y: {oy}, low_res_scale: {},\n", lrs != 0);
+            w.push((format!("e{e}.offset_x"), Want::Int(ox)));
+            w.push((format!("e{e}.offset_y"), Want::Int(oy)));
+            w.push((format!("e{e}.low_res_scale"), Want::Int((lrs != 0) as i64)));
+            if let Some(x) = ck { s += &format!("    colorkey: {x},\n"); w.push((format!("e{e}.colorkey"), Want::NoSlot(x))); }
+        }
+        // sprites
+        let n_sprites = if first { ov.or("n_sprites", 1) } else { 1 };
+        s += "    sprites: {\n";
+        for j in 0..n_sprites {
+            let id = if first && j == 0 { ov.or("sprite_id", 0) } else { 1000 * e as i64 + j };
+            s += &format!("        sp{e}_{j}: {{id: {id}, x: 1.0, y: 2.0, w: 3.0, h: 4.5}},\n");
+            w.push((format!("e{e}.sp{j}.id"), Want::Int(id)));
+            if j < 4 {
+                for (nm, x) in [("x", 1.0f32), ("y", 2.0), ("w", 3.0), ("h", 4.5)] { w.push((format!("e{e}.sp{j}.{nm}"), f32w(x))); }
+            }
+        }
+        s += "    },\n}\n";
+        w.push((format!("e{e}.num_sprites"), Want::Int(n_sprites)));
+        w.push((format!("e{e}.n_sprites"), Want::Int(n_sprites)));
+        // scripts
+        let n_scripts = if first { ov.or("n_scripts", 1) } else { 1 };
+        for j in 0..n_scripts {
+            let id = if first && j == 0 { ov.or("script_id", 5) } else { 100 + 1000 * e as i64 + j };
+            let key = format!("e{e}.sc{j}");
+            s += &format!("script {id} scr{e}_{j} {{\n");
+            if first && j == 0 { s += &probe_script_body(sc, ov, &mut map, &key, &mut w); } else { s += &simple_script_body(sc, &mut map, &key, &mut w); }
+            s += "}\n";
+            w.push((format!("{key}.id"), Want::Int(id)));
+        }
+        w.push((format!("e{e}.num_scripts"), Want::Int(n_scripts)));
+        w.push((format!("e{e}.n_scripts"), Want::Int(n_scripts)));
+    }
+    Rendered { src: s, mapfile: map.render(), wants: w }
+}
+
+fn render_std(cl: &Class, ov: &Ov) -> Rendered {
+    let sc = &cl.scripts[0];
+    let is06 = m2::std_is_06_format(cl.game);
+    let mut map = MapB { magic: "!stdmap", ..Default::default() };
+    let mut w: Vec<(String, Want)> = vec![];
+    let mut s = String::from("meta {\n");
+    let unknown = ov.or("unknown", 7);
+    s += &format!("    unknown: {unknown},\n");
+    w.push(("unknown".into(), Want::Int(unknown)));
+    let fixed = |l: i64| -> Want { Want::Bytes(vec![b'a'; l.max(0) as usize]) };
+    if is06 {
+        let (l0, l1, l2) = (ov.or("stage_name_len", 2), ov.or("bgm_name_len", 3), ov.or("bgm_path_len", 4));
+        s += &format!("    stage_name: \"{}\",\n    bgm: [\n", a_string(l0));
+        w.push(("str0".into(), fixed(l0)));
+        for k in 0..4 {
+            let (ln, lp) = if k == 0 { (l1, l2) } else { (1, 1) };
+            s += &format!("        {{path: \"{}\", name: \"{}\"}},\n", a_string(lp), a_string(ln));
+            w.push((format!("str{}", 1 + k), fixed(ln)));
+            w.push((format!("str{}", 5 + k), fixed(lp)));
+        }
+        s += "    ],\n";
+    } else {
+        let l0 = ov.or("anm_path_len", 9);
+        s += &format!("    anm_path: \"{}\",\n", a_string(l0));
+        w.push(("str0".into(), fixed(l0)));
+    }
+    let n_obj = ov.or("n_objects", 2);
+    let n_quads = ov.or("n_quads", 2);
+    let n_inst = ov.or("n_instances", 2);
+    let strip = matches!(cl.game, Game::Th08 | Game::Th09);
+    s += "    objects: {\n";
+    let mut total_quads = 0i64;
+    for k in 0..n_obj {
+        let layer = if k == 0 { ov.or("layer", 4) } else { 2 };
+        s += &format!("        obj{k}: {{layer: {layer}, pos: [1.0, 2.0, 3.0], size: [4.0, 5.0, 6.5], quads: [");
+        w.push((format!("o{k}.id"), Want::Int(k)));
+        w.push((format!("o{k}.layer"), Want::Int(layer)));
+        if k < 3 { for (i, x) in [1.0f32, 2.0, 3.0, 4.0, 5.0, 6.5].iter().enumerate() { w.push((format!("o{k}.f{i}"), f32w(*x))); } }
+        let nq = if k == 0 { n_quads } else { 0 };
+        for q in 0..nq {
+            let asn = if q == 0 { ov.or("anm_script", 3) } else { 9 };
+            if strip && q == 1 {
+                s += &format!("\n            strip {{anm_script: {asn}, start: [1.0, 2.0, 3.0], end: [4.0, 5.0, 6.0], width: 7.5}},");
+                w.push((format!("o{k}.q{q}.kind"), Want::Int(1)));
+            } else {
+                s += &format!("\n            rect {{anm_script: {asn}, pos: [1.0, 2.0, 3.0], size: [4.0, 5.5]}},");
+                w.push((format!("o{k}.q{q}.kind"), Want::Int(0)));
+            }
+            w.push((format!("o{k}.q{q}.anm_script"), Want::Int(asn)));
+        }
+        w.push((format!("o{k}.n_quads"), Want::Int(nq)));
+        total_quads += nq;
+        s += "]},\n";
+    }
+    s += "    },\n    instances: [\n";
+    let mut ni = 0;
+    if n_obj > 0 {
+        for k in 0..n_inst {
+            // the first instance carries the deviating `unknown`; the second names the LAST object
+            let obj = if k == 1 { n_obj - 1 } else { 0 };
+            if k == 0 {
+                let u = ov.or("inst_unknown", 5);
+                s += &format!("        obj{obj} {{unknown: {u}, pos: [1.0, 2.0, 3.0]}},\n");
+                w.push((format!("inst{k}.unknown"), Want::Int(u)));
+            } else {
+                s += &format!("        obj{obj} {{pos: [1.0, 2.0, 3.0]}},\n");
+            }
+            w.push((format!("inst{k}.object_id"), Want::Int(obj)));
+            ni += 1;
+        }
+    }
+    s += "    ],\n}\n";
+    w.push(("num_objects".into(), Want::Int(n_obj)));
+    w.push(("n_objects".into(), Want::Int(n_obj)));
+    w.push(("num_quads".into(), Want::Int(total_quads)));
+    w.push(("n_instances".into(), Want::Int(ni)));
+    s += "script main {\n";
+    s += &probe_script_body(sc, ov, &mut map, "main", &mut w);
+    s += "}\n";
+    Rendered { src: s, mapfile: map.render(), wants: w }
+}
+
+fn render_msg(cl: &Class, ov: &Ov) -> Rendered {
+    let sc = &cl.scripts[0];
+    let has_flags = m2::msg_table_has_flags(cl.game);
+    let mut map = MapB { magic: "!msgmap", ..Default::default() };
+    let mut w: Vec<(String, Want)> = vec![];
+    let n = ov.or("n_entries", 3);
+    let table_len = ov.get("table_len");
+    let mut s = String::from("meta {\n");
+    if let Some(tl) = table_len { s += &format!("    table_len: {tl},\n"); }
+    s += "    table: {\n";
+    let eff_len = table_len.unwrap_or(n);
+    for k in 0..n {
+        let flags = if k == 0 { ov.get("flags").or(if has_flags { Some(256) } else { None }) } else { None };
+        match flags {
+            Some(f) => s += &format!("        {k}: {{script: \"s{k}\", flags: {f}}},\n"),
+            None => s += &format!("        {k}: {{script: \"s{k}\"}},\n"),
+        }
+        if k < eff_len {
+            w.push((format!("t{k}.script"), Want::Int(k)));
+            if let Some(f) = flags { w.push((format!("t{k}.flags"), if has_flags { Want::Int(f) } else { Want::NoSlot(f) })); }
+        }
+    }
+    for k in n..eff_len { if k < n + 300 { w.push((format!("t{k}.offset"), Want::Int(0))); } }
+    s += "    },\n}\n";
+    w.push(("table_len".into(), Want::Int(eff_len)));
+    for k in 0..n {
+        let key = format!("s{k}");
+        s += &format!("script s{k} {{\n");
+        // the walker only finds scripts the table refers to
+        let mut sink = vec![];
+        let dest = if k < eff_len { &mut w } else { &mut sink };
+        if k == 0 { s += &probe_script_body(sc, ov, &mut map, &key, dest); } else { s += &simple_script_body(sc, &mut map, &key, dest); }
+        s += "}\n";
+    }
+    w.push(("n_scripts".into(), Want::Int(n.min(eff_len))));
+    Rendered { src: s, mapfile: map.render(), wants: w }
+}
+
+fn render_mission(cl: &Class, ov: &Ov) -> Rendered {
+    let is095 = cl.game == Game::Th095;
+    let mut w: Vec<(String, Want)> = vec![];
+    let mut s = String::new();
+    let n = ov.or("n_entries", 2);
+    let nlines = if is095 { 3 } else { 6 };
+    for k in 0..n {
+        let first = k == 0;
+        let getf = |name: &str, d: i64| if first { ov.or(name, d) } else { d };
+        let (stage, scene) = (getf("stage", 1 + k % 50), getf("scene", 2));
+        let tl = getf("text_len", 5);
+        let mut lines = vec![];
+        for l in 0..nlines {
+            let len = if l == 0 { tl } else { l as i64 };
+            lines.push(format!("\"{}\"", a_string(len)));
+            if k < 3 { w.push((format!("m{k}.text{l}"), Want::Bytes(vec![b'a'; len as usize]))); }
+        }
+        let text = lines.join(", ");
+        w.push((format!("m{k}.stage"), Want::Int(stage)));
+        w.push((format!("m{k}.scene"), Want::Int(scene)));
+        if is095 {
+            let (face, point) = (getf("face", 3), getf("point", 1234567));
+            s += &format!("entry {{ stage: {stage}, scene: {scene}, face: {face}, point: {point}, text: [{text}] }}\n");
+            w.push((format!("m{k}.face"), Want::Int(face)));
+            w.push((format!("m{k}.point0"), Want::Int(point)));
+        } else {
+            let (player, u1, u2, p1, p2, fu) = (getf("player", 1), getf("unknown_1", 7), getf("unknown_2", 9), getf("point_1", 3), getf("point_2", 1234567), getf("furigana", 6));
+            s += &format!("entry {{ stage: {stage}, scene: {scene}, player: {player}, unknown_1: {u1}, unknown_2: {u2}, point_1: {p1}, point_2: {p2},\n        furigana: [[1, 2], [3, 4], [5, {fu}]], text: [{text}] }}\n");
+            w.push((format!("m{k}.player"), Want::Int(player)));
+            w.push((format!("m{k}.unknown_1"), Want::Int(u1)));
+            w.push((format!("m{k}.unknown_2"), Want::Int(u2)));
+            w.push((format!("m{k}.point0"), Want::Int(p1)));
+            w.push((format!("m{k}.point1"), Want::Int(p2)));
+            for (i, x) in [1, 2, 3, 4, 5, fu].iter().enumerate() { w.push((format!("m{k}.furigana{i}"), Want::Int(*x))); }
+        }
+    }
+    w.push(("num_entries".into(), Want::Int(n)));
+    w.push(("n_entries".into(), Want::Int(n)));
+    Rendered { src: s, mapfile: String::new(), wants: w }
+}
+
+fn render_ecl(cl: &Class, ov: &Ov) -> Rendered {
+    let (sub, tl) = (&cl.scripts[0], &cl.scripts[1]);
+    let mut map = MapB { magic: "!eclmap", ..Default::default() };
+    let mut w: Vec<(String, Want)> = vec![];
+    let mut s = String::new();
+    let n_tl = ov.or("n_timelines", 1);
+    let n_subs = ov.or("n_subs", 2);
+    for k in 0..n_tl {
+        let key = format!("tl{k}");
+        s += &format!("script timeline{k} {{\n");
+        if k == 0 { s += &probe_script_body(tl, ov, &mut map, &key, &mut w); } else { s += &simple_script_body(tl, &mut map, &key, &mut w); }
+        s += "}\n";
+    }
+    for k in 0..n_subs {
+        let key = format!("sub{k}");
+        s += &format!("void sub{k}() {{\n");
+        if k == 0 { s += &probe_script_body(sub, ov, &mut map, &key, &mut w); } else { s += &simple_script_body(sub, &mut map, &key, &mut w); }
+        s += "}\n";
+    }
+    w.push(("num_subs".into(), Want::Int(n_subs)));
+    w.push(("n_subs".into(), Want::Int(n_subs)));
+    w.push(("n_timelines".into(), Want::Int(n_tl)));
+    if cl.game != Game::Th06 { w.push(("num_timelines".into(), Want::Int(n_tl))); }
+    Rendered { src: s, mapfile: map.render(), wants: w }
+}
+
+// =============================================================================================
+// probing: binary -> observed fields (through the M2 walkers only)
+
+#[derive(Debug, Clone, PartialEq)]
+enum Val { Int { v: i64, bits: u32 }, Bytes(Vec<u8>) }
+
+type Probed = HashMap<String, Val>;
+
+fn pi(p: &mut Probed, k: String, v: i64, bits: u32) { p.insert(k, Val::Int { v, bits }); }
+
+fn layout_bits(l: InstrLayout) -> (u32, u32) {
+    use InstrLayout::*;
+    match l { Anm06 | Msg => (16, 8), Anm07 | Timeline06 => (16, 16), _ => (32, 16) }
+}
+
+fn probe_instrs(p: &mut Probed, key: &str, layout: InstrLayout, instrs: &[m2::Instr]) {
+    let (tb, ob) = layout_bits(layout);
+    pi(p, format!("{key}.n"), instrs.len() as i64, 64);
+    for (k, i) in instrs.iter().enumerate() {
+        pi(p, format!("{key}.i{k}.time"), i.time as i64, tb);
+        pi(p, format!("{key}.i{k}.opcode"), i.opcode as i64, ob);
+        pi(p, format!("{key}.i{k}.mask"), i.param_mask as i64, 16);
+        pi(p, format!("{key}.i{k}.diff"), i.difficulty as i64, 8);
+        if let Some(a) = i.extra_arg { pi(p, format!("{key}.i{k}.arg0"), a as i64, 16); }
+        pi(p, format!("{key}.i{k}.argsize"), i.args.len() as i64, 64);
+        p.insert(format!("{key}.i{k}.args"), Val::Bytes(i.args.clone()));
+    }
+}
+
+fn probe(cl: &Class, bytes: &[u8]) -> Result<Probed, String> {
+    let mut p: Probed = HashMap::new();
+    match cl.kind {
+        Kind::Anm => {
+            let es = m2::walk_anm(bytes, cl.game)?;
+            let layout = m2::anm_instr_layout(cl.game);
+            pi(&mut p, "n_entries".into(), es.len() as i64, 64);
+            for (e, en) in es.iter().enumerate() {
+                let hb = if en.old_header { 32 } else { 16 };
+                pi(&mut p, format!("e{e}.num_sprites"), en.num_sprites as i64, hb);
+                pi(&mut p, format!("e{e}.num_scripts"), en.num_scripts as i64, hb);
+                pi(&mut p, format!("e{e}.n_sprites"), en.sprites.len() as i64, 64);
+                pi(&mut p, format!("e{e}.n_scripts"), en.scripts.len() as i64, 64);
+                pi(&mut p, format!("e{e}.rt_width"), en.rt_width as i64, hb);
+                pi(&mut p, format!("e{e}.rt_height"), en.rt_height as i64, hb);
+                pi(&mut p, format!("e{e}.rt_format"), en.rt_format as i64, hb);
+                pi(&mut p, format!("e{e}.memory_priority"), en.memory_priority as i64, 32);
+                pi(&mut p, format!("e{e}.has_data"), en.has_data as i64, 16);
+                pi(&mut p, format!("e{e}.thtx"), en.thtx.is_some() as i64, 64);
+                if en.old_header { pi(&mut p, format!("e{e}.colorkey"), en.colorkey as i64, 32); }
+                else {
+                    pi(&mut p, format!("e{e}.offset_x"), en.offset_x as i64, 16);
+                    pi(&mut p, format!("e{e}.offset_y"), en.offset_y as i64, 16);
+                    pi(&mut p, format!("e{e}.low_res_scale"), en.low_res_scale as i64, 16);
+                }
+                p.insert(format!("e{e}.path"), Val::Bytes(en.path.clone()));
+                if let Some(t) = &en.thtx {
+                    pi(&mut p, format!("e{e}.thtx.width"), t.width as i64, 16);
+                    pi(&mut p, format!("e{e}.thtx.height"), t.height as i64, 16);
+                    pi(&mut p, format!("e{e}.thtx.format"), t.format as i64, 16);
+                }
+                for (j, sp) in en.sprites.iter().enumerate() {
+                    pi(&mut p, format!("e{e}.sp{j}.id"), sp.id as i64, 32);
+                    if j < 4 {
+                        for (nm, x) in [("x", sp.x), ("y", sp.y), ("w", sp.w), ("h", sp.h)] { pi(&mut p, format!("e{e}.sp{j}.{nm}"), x.to_bits() as i64, 32); }
+                    }
+                }
+                for (j, scr) in en.scripts.iter().enumerate() {
+                    pi(&mut p, format!("e{e}.sc{j}.id"), scr.id as i64, 32);
+                    probe_instrs(&mut p, &format!("e{e}.sc{j}"), layout, &scr.instrs);
+                }
+            }
+        },
+        Kind::Std => {
+            let s = m2::walk_std(bytes, cl.game)?;
+            pi(&mut p, "unknown".into(), s.unknown as i64, 32);
+            pi(&mut p, "num_objects".into(), s.num_objects as i64, 16);
+            pi(&mut p, "n_objects".into(), s.objects.len() as i64, 64);
+            pi(&mut p, "num_quads".into(), s.num_quads as i64, 16);
+            pi(&mut p, "n_instances".into(), s.instances.len() as i64, 64);
+            for (k, st) in s.strings.iter().enumerate() { p.insert(format!("str{k}"), Val::Bytes(m2::trim_nul(st).to_vec())); }
+            for (k, o) in s.objects.iter().enumerate() {
+                pi(&mut p, format!("o{k}.id"), o.id as i64, 16);
+                pi(&mut p, format!("o{k}.layer"), o.layer as i64, 16);
+                pi(&mut p, format!("o{k}.n_quads"), o.quads.len() as i64, 64);
+                if k < 3 { for (i, x) in o.pos.iter().chain(o.size.iter()).enumerate() { pi(&mut p, format!("o{k}.f{i}"), x.to_bits() as i64, 32); } }
+                for (q, qu) in o.quads.iter().enumerate() {
+                    pi(&mut p, format!("o{k}.q{q}.kind"), qu.kind as i64, 16);
+                    pi(&mut p, format!("o{k}.q{q}.anm_script"), qu.anm_script as i64, 16);
+                }
+            }
+            for (k, i) in s.instances.iter().enumerate() {
+                pi(&mut p, format!("inst{k}.object_id"), i.object_id as i64, 16);
+                pi(&mut p, format!("inst{k}.unknown"), i.unknown as i64, 16);
+            }
+            probe_instrs(&mut p, "main", m2::std_instr_layout(cl.game), &s.script);
+        },
+        Kind::Msg | Kind::End => {
+            let m = m2::walk_msg(bytes, cl.game, cl.kind == Kind::End)?;
+            pi(&mut p, "table_len".into(), m.table_len as i64, 32);
+            pi(&mut p, "n_scripts".into(), m.scripts.len() as i64, 64);
+            for (k, t) in m.table.iter().enumerate() {
+                pi(&mut p, format!("t{k}.offset"), t.script_offset as i64, 32);
+                if let Some(ix) = m.scripts.iter().position(|s| s.0 == t.script_offset as usize) { pi(&mut p, format!("t{k}.script"), ix as i64, 64); }
+                if let Some(f) = t.flags { pi(&mut p, format!("t{k}.flags"), f as i64, 32); }
+            }
+            for (k, sc) in m.scripts.iter().enumerate() { probe_instrs(&mut p, &format!("s{k}"), InstrLayout::Msg, &sc.1); }
+        },
+        Kind::Mission => {
+            let m = m2::walk_mission(bytes, cl.game)?;
+            pi(&mut p, "num_entries".into(), m.num_entries as i64, 32);
+            pi(&mut p, "n_entries".into(), m.entries.len() as i64, 64);
+            for (k, e) in m.entries.iter().enumerate() {
+                pi(&mut p, format!("m{k}.stage"), e.stage as i64, 16);
+                pi(&mut p, format!("m{k}.scene"), e.scene as i64, 16);
+                if cl.game == Game::Th095 { pi(&mut p, format!("m{k}.face"), e.face as i64, 32); }
+                else {
+                    pi(&mut p, format!("m{k}.player"), e.player as i64, 16);
+                    pi(&mut p, format!("m{k}.unknown_1"), e.unknown_1 as i64, 8);
+                    pi(&mut p, format!("m{k}.unknown_2"), e.unknown_2 as i64, 8);
+                }
+                for (i, x) in e.points.iter().enumerate() { pi(&mut p, format!("m{k}.point{i}"), *x as i64, 32); }
+                for (i, x) in e.furigana.iter().enumerate() { pi(&mut p, format!("m{k}.furigana{i}"), *x as i64, 32); }
+                if k < 3 { for (l, t) in e.text_plain.iter().enumerate() { p.insert(format!("m{k}.text{l}"), Val::Bytes(m2::trim_nul(t).to_vec())); } }
+            }
+        },
+        Kind::Ecl => {
+            let e = m2::walk_ecl(bytes, cl.game)?;
+            pi(&mut p, "num_subs".into(), e.num_subs as i64, 16);
+            pi(&mut p, "n_subs".into(), e.subs.len() as i64, 64);
+            pi(&mut p, "num_timelines".into(), e.num_timelines_field as i64, 16);
+            pi(&mut p, "n_timelines".into(), e.timelines.len() as i64, 64);
+            for (k, s) in e.subs.iter().enumerate() { probe_instrs(&mut p, &format!("sub{k}"), e.sub_layout, s); }
+            for (k, s) in e.timelines.iter().enumerate() { probe_instrs(&mut p, &format!("tl{k}"), e.timeline_layout, s); }
+        },
+    }
+    Ok(p)
+}
+
+// =============================================================================================
+// running one case
+
+#[derive(Debug, Clone)]
+struct Mismatch { key: String, requested: String, stored: String }
+
+#[derive(Debug, Clone)]
+struct CaseResult {
+    outcome: &'static str,
+    /// failure signature (already normalised) + human-readable one-liner
+    failure: Option<(String, String)>,
+    comparisons: u64,
+    evaluations: u64,
+    mismatches: Vec<Mismatch>,
+    no_slot: Vec<String>,
+    diag_head: String,
+    readback: String,
+    src_len: usize,
+}
+
+fn show_bytes(b: &[u8]) -> String {
+    if b.len() <= 24 { format!("{} bytes [{}]", b.len(), hex(b)) } else { format!("{} bytes [{}..{}]", b.len(), hex(&b[..8]), hex(&b[b.len() - 4..])) }
+}
+
+fn compare(wants: &[(String, Want)], p: &Probed, corrupt: Option<&str>) -> (u64, Vec<Mismatch>, Vec<String>) {
+    let mut n = 0u64;
+    let mut mm: Vec<Mismatch> = vec![];
+    let mut no_slot = vec![];
+    let mut push = |m: Mismatch| { if mm.len() < 12 { mm.push(m); } else if mm.len() == 12 { mm.push(Mismatch { key: "...".into(), requested: "(more)".into(), stored: "".into() }); } };
+    for (key, want) in wants {
+        let pkey = key.split('#').next().unwrap();
+        match want {
+            Want::NoSlot(v) => { if *v != 0 { no_slot.push(format!("{key}={v}")); } continue; },
+            _ => {},
+        }
+        n += 1;
+        let got = p.get(pkey);
+        match (want, got) {
+            (_, None) => push(Mismatch { key: key.clone(), requested: format!("{want:?}").chars().take(60).collect(), stored: "<absent from the file>".into() }),
+            (Want::Int(req), Some(Val::Int { v, bits })) => {
+                let mut req = *req;
+                if corrupt == Some(key.as_str()) { req += 1; }
+                let ok = if *bits >= 64 { req == *v } else { let mask = (1i64 << bits) - 1; lenient_fits(req, *bits) && (req & mask) == (*v & mask) };
+                if !ok { push(Mismatch { key: key.clone(), requested: req.to_string(), stored: format!("{v} ({bits}-bit field)") }); }
+            },
+            (Want::Bytes(req), Some(Val::Bytes(b))) => {
+                if req != b { push(Mismatch { key: key.clone(), requested: show_bytes(req), stored: show_bytes(b) }); }
+            },
+            (Want::ArgInt { off, width, value }, Some(Val::Bytes(b))) => {
+                let bits = 8 * *width as u32;
+                match b.get(*off..*off + *width) {
+                    None => push(Mismatch { key: key.clone(), requested: value.to_string(), stored: format!("<blob too short: {}>", b.len()) }),
+                    Some(sl) => {
+                        let mut raw = [0u8; 8];
+                        raw[..*width].copy_from_slice(sl);
+                        let v = i64::from_le_bytes(raw);
+                        let mask = (1i64 << bits) - 1;
+                        if !(lenient_fits(*value, bits) && (*value & mask) == (v & mask)) {
+                            push(Mismatch { key: key.clone(), requested: value.to_string(), stored: format!("{v} ({bits}-bit argument)") });
+                        }
+                    },
+                }
+            },
+            (w, Some(v)) => push(Mismatch { key: key.clone(), requested: format!("{w:?}").chars().take(60).collect(), stored: format!("{v:?}").chars().take(60).collect() }),
+        }
+    }
+    (n, mm, no_slot)
+}
+
+fn head(s: &str, n: usize) -> String { s.lines().filter(|l| !l.trim().is_empty()).take(n).collect::<Vec<_>>().join(" | ").chars().take(600).collect() }
+
+fn field_label(devs: &[Dev]) -> String { devs.iter().map(|d| d.field.as_str()).collect::<Vec<_>>().join("+") }
+
+fn run_case(cl: &Class, devs: &[Dev], corrupt: Option<&str>) -> CaseResult {
+    let r = render(cl, devs);
+    let tool = Tool::new(cl.kind, cl.game);
+    let mapfiles: Vec<&str> = if r.mapfile.is_empty() { vec![] } else { vec![r.mapfile.as_str()] };
+    let out = drive::compile(tool, r.src.as_bytes(), &CompileOpts { mapfiles: mapfiles.clone(), ..Default::default() });
+    let label = field_label(devs);
+    let mut res = CaseResult { outcome: "", failure: None, comparisons: 0, evaluations: 1, mismatches: vec![], no_slot: vec![], diag_head: head(&out.diag, 4),
+                               readback: String::new(), src_len: r.src.len() };
+    let Some(bytes) = out.bytes else {
+        if let Some(p) = &out.panic {
+            res.outcome = "panic-in-compile";
+            res.failure = Some((format!("C03:{}", p.signature()), format!("compile panicked: {}", p.text)));
+        } else if !drive::has_error(&out.diag) {
+            res.outcome = "failed-without-error-diagnostic";
+            res.failure = Some((format!("C03:failed-without-error:{}:{}", cl.name, label), "compile failed but no error/bug diagnostic was rendered".into()));
+        } else {
+            res.outcome = "rejected-with-error";
+        }
+        return res;
+    };
+    // (i) truth reads its own output back
+    let dec = drive::decompile(tool, &bytes, &DecompOpts { mapfiles, ..Default::default() });
+    res.evaluations += 1;
+    let mut unreadable: Option<(String, String)> = None;
+    if dec.text.is_none() {
+        if let Some(p) = &dec.panic {
+            res.readback = format!("truth PANICKED reading its own output: {}", p.text);
+            unreadable = Some((format!("C03:{}", p.signature()), res.readback.clone()));
+        } else {
+            res.readback = format!("truth cannot read its own output: {}", head(&dec.diag, 3));
+            unreadable = Some((format!("C03:unreadable-output:{}:{}", cl.name, label), res.readback.clone()));
+        }
+    } else {
+        res.readback = "ok".into();
+    }
+    // (ii) independent walk + field comparison
+    match probe(cl, &bytes) {
+        Err(e) => {
+            res.outcome = "m2-cannot-walk-output";
+            res.mismatches.push(Mismatch { key: "<whole file>".into(), requested: "a well-formed file".into(), stored: format!("M2 walker: {e}") });
+            res.failure = Some((format!("C03:silent-change:{}:{}", cl.name, label), format!("compiled file is malformed for the independent walker: {e}")));
+        },
+        Ok(p) => {
+            let (n, mm, no_slot) = compare(&r.wants, &p, corrupt);
+            res.comparisons = n;
+            res.no_slot = no_slot;
+            if !mm.is_empty() {
+                res.outcome = "silent-change";
+                let m0 = &mm[0];
+                let mut label = label.clone();
+                // an instruction with opcode 0xFFFF is stored exactly but IS the script terminator of the format
+                if devs.len() == 1 && devs[0].field.ends_with("opcode") && (devs[0].value & 0xFFFF) == 0xFFFF && lenient_fits(devs[0].value, 16)
+                    && !mm.iter().any(|m| m.key.ends_with(".opcode")) { label += "=0xffff-is-terminator"; }
+                res.failure = Some((format!("C03:silent-change:{}:{}", cl.name, label), format!("C03:{}/{}: requested {} got {}", cl.name, m0.key, m0.requested, m0.stored)));
+                res.mismatches = mm;
+            } else if let Some(u) = unreadable.clone() {
+                res.outcome = if dec.panic.is_some() { "panic-in-readback" } else { "unreadable-output" };
+                res.failure = Some(u);
+            } else if !res.no_slot.is_empty() {
+                res.outcome = if out.diag.lines().any(|l| l.starts_with("warning")) { "no-slot-field-dropped-with-warning" } else { "no-slot-field-accepted-silently" };
+            } else {
+                res.outcome = "ok-exact";
+            }
+        },
+    }
+    if res.failure.is_some() && res.outcome == "silent-change" {
+        if let Some(u) = unreadable { res.readback = u.1; }
+    }
+    // cross-check through truth's own reader where the printed form is unambiguous
+    if res.failure.is_none() {
+        if let (Some(text), [d]) = (&dec.text, devs) {
+            let printed = match (cl.kind, d.field.as_str()) {
+                (Kind::Std, "layer") | (Kind::Std, "anm_script") => Some((d.field.as_str(), 16)),
+                (Kind::Mission, "stage") | (Kind::Mission, "scene") | (Kind::Mission, "player") => Some((d.field.as_str(), 16)),
+                (Kind::Mission, "unknown_1") | (Kind::Mission, "unknown_2") => Some((d.field.as_str(), 8)),
+                _ => None,
+            };
+            if let Some((name, bits)) = printed {
+                res.comparisons += 1;
+                let stored = d.value & ((1i64 << bits) - 1);
+                let needle = format!("{name}: {stored}");
+                let found = text.match_indices(&needle).any(|(i, _)| !text[i + needle.len()..].starts_with(|c: char| c.is_ascii_digit()));
+                if !found {
+                    res.outcome = "truth-reader-disagrees";
+                    res.failure = Some((format!("C03:truth-reader-disagrees:{}:{}", cl.name, d.field), format!("M2 sees {stored} in the file but the decompiled text has no '{needle}'")));
+                }
+            }
+        }
+    }
+    res
+}
+
+// =============================================================================================
+// the run
+
+#[derive(Debug, Clone)]
+struct Item { class: usize, devs: Vec<Dev>, nontrivial: bool, strictly_fitting: bool, heavy: bool, pair: bool }
+
+fn corrupt_target() -> Option<(&'static str, &'static str, i64, &'static str)> {
+    // (class, deviating field, value, want key whose requested value is perturbed)
+    if std::env::var("VERIF_C03_SELFTEST_CORRUPT").map(|v| v == "1").unwrap_or(false) { Some(("std-10", "layer", 1, "o0.layer")) } else { None }
+}
+
+fn witness_detail(cl: &Class, devs: &[Dev], res: &CaseResult, human: &str) -> Value {
+    let r = render(cl, devs);
+    let src = if r.src.len() <= 6000 { r.src.clone() } else { format!("{}\n... [{} bytes in total; regenerate with `replay`] ...\n{}", &r.src[..2500], r.src.len(), &r.src[r.src.len() - 1200..]) };
+    json!({
+        "class": cl.name, "tool": format!("{:?}", cl.kind), "game": cl.game.as_str(),
+        "devs": devs.iter().map(|d| json!({"field": d.field, "value": d.value})).collect::<Vec<_>>(),
+        "what": human,
+        "mismatches": res.mismatches.iter().map(|m| json!({"field": m.key, "requested": m.requested, "stored": m.stored})).collect::<Vec<_>>(),
+        "truth_readback": res.readback,
+        "compile_diagnostics": res.diag_head,
+        "source": src, "mapfile": r.mapfile,
+    })
+}
+
+pub fn run(tier: &str) -> Report {
+    let mut rep = Report::new("C03", tier, "model_checking");
+    let thorough = rep.is_thorough();
+    let cls = classes(thorough);
+    let corrupt = corrupt_target();
+
+    // ---- enumerate D = 1
+    let mut items: Vec<Item> = vec![];
+    for (ci, cl) in cls.iter().enumerate() {
+        items.push(Item { class: ci, devs: vec![], nontrivial: false, strictly_fitting: true, heavy: false, pair: false }); // the base file
+        for f in &cl.fields {
+            for v in field_values(cl, f, thorough) {
+                items.push(Item {
+                    class: ci, devs: vec![Dev { field: f.name.clone(), value: v }], nontrivial: is_nontrivial(cl, f, v),
+                    strictly_fitting: match f.kind { FK::Int => strict_fits(v, f.bits.min(32), f.signed || f.bits >= 32), _ => !is_nontrivial(cl, f, v) },
+                    heavy: is_heavy(f, v), pair: false,
+                });
+            }
+        }
+    }
+    // heavy cases first (they overlap with the many cheap ones)
+    items.sort_by_key(|i| !i.heavy);
+    let n_single = items.len();
+    let deadline = rep.deadline();
+    let results = par_map(&items, Some(deadline), |_, it| {
+        let cl = &cls[it.class];
+        let c = corrupt.and_then(|(cn, f, v, key)| (cl.name == cn && it.devs.len() == 1 && it.devs[0].field == f && it.devs[0].value == v).then_some(key));
+        run_case(cl, &it.devs, c)
+    });
+
+    // ---- D = 2 (thorough): pairs of fields, reduced value sets; only interactions are reported
+    let mut single_fail: BTreeSet<(usize, String, i64)> = BTreeSet::new();
+    let mut single_reject: BTreeSet<(usize, String, i64)> = BTreeSet::new();
+    for (it, r) in items.iter().zip(&results) {
+        if let (Some(r), [d]) = (r, &it.devs[..]) {
+            if r.failure.is_some() { single_fail.insert((it.class, d.field.clone(), d.value)); }
+            if r.outcome == "rejected-with-error" { single_reject.insert((it.class, d.field.clone(), d.value)); }
+        }
+    }
+    let mut pair_items: Vec<Item> = vec![];
+    if thorough {
+        for (ci, cl) in cls.iter().enumerate() {
+            for (ia, fa) in cl.fields.iter().enumerate() {
+                for fb in cl.fields.iter().skip(ia + 1) {
+                    for va in pair_values(cl, fa) {
+                        for vb in pair_values(cl, fb) {
+                            pair_items.push(Item {
+                                class: ci, devs: vec![Dev { field: fa.name.clone(), value: va }, Dev { field: fb.name.clone(), value: vb }],
+                                nontrivial: is_nontrivial(cl, fa, va) || is_nontrivial(cl, fb, vb), strictly_fitting: false, heavy: false, pair: true,
+                            });
+                        }
+                    }
+                }
+            }
+        }
+    }
+    let pair_results = par_map(&pair_items, Some(deadline), |_, it| run_case(&cls[it.class], &it.devs, None));
+
+    // ---- aggregate
+    let mut failures: BTreeMap<String, Vec<(usize, bool)>> = BTreeMap::new(); // signature -> [(index, is_pair)]
+    let mut unexpected_rejections: Vec<Value> = vec![];
+    let mut no_slot_seen: BTreeMap<String, u64> = BTreeMap::new();
+    let mut states: BTreeSet<(usize, Vec<Dev>)> = BTreeSet::new();
+    let mut nontrivial: BTreeSet<(usize, Vec<Dev>)> = BTreeSet::new();
+    let mut not_run = 0u64;
+    let mut per_class: BTreeMap<&str, (u64, u64)> = BTreeMap::new();
+    for (is_pair, its, ress) in [(false, &items, &results), (true, &pair_items, &pair_results)] {
+        for (idx, (it, r)) in its.iter().zip(ress.iter()).enumerate() {
+            rep.transitions += 1;
+            let Some(r) = r else { not_run += 1; continue };
+            let cl = &cls[it.class];
+            states.insert((it.class, it.devs.clone()));
+            if it.nontrivial { nontrivial.insert((it.class, it.devs.clone())); }
+            rep.evaluations += r.evaluations;
+            rep.traces_validated += r.comparisons;
+            let e = per_class.entry(cl.name).or_insert((0, 0));
+            e.0 += 1; e.1 += r.comparisons;
+            let mut outcome = r.outcome.to_string();
+            if r.outcome == "ok-exact" && it.devs.len() == 1 && !it.pair {
+                let d = &it.devs[0];
+                let f = cl.fields.iter().find(|f| f.name == d.field).unwrap();
+                if f.kind == FK::Int && f.bits < 32 && !strict_fits(d.value, f.bits, f.signed) { outcome = "ok-exact-modulo-signedness".into(); }
+            }
+            if r.outcome == "rejected-with-error" && it.strictly_fitting && !it.pair {
+                outcome = "rejected-with-error(value-fits)".into();
+                if unexpected_rejections.len() < 400 {
+                    unexpected_rejections.push(json!({"class": cl.name, "devs": it.devs.iter().map(|d| format!("{}={}", d.field, d.value)).collect::<Vec<_>>(), "diag": r.diag_head.chars().take(200).collect::<String>()}));
+                }
+                if it.devs.is_empty() { rep.machinery_errors.push(format!("base file of {} does not compile: {}", cl.name, r.diag_head)); }
+            }
+            for ns in &r.no_slot { *no_slot_seen.entry(format!("{}:{}:{}", cl.name, ns.split('=').next().unwrap().rsplit('.').next().unwrap(), r.outcome)).or_insert(0) += 1; }
+            if let Some((sig, _)) = &r.failure {
+                if is_pair {
+                    // only interactions: neither half fails or is rejected on its own
+                    let implied = it.devs.iter().any(|d| single_fail.contains(&(it.class, d.field.clone(), d.value)));
+                    if implied { rep.outcome("pair-failure-implied-by-single-field"); continue; }
+                }
+                if it.devs.is_empty() { rep.machinery_errors.push(format!("base file of {} fails the comparison: {:?}", cl.name, r.failure)); }
+                failures.entry(sig.clone()).or_default().push((idx, is_pair));
+            }
+            rep.outcome(&outcome);
+            if rep.samples.len() < 10 && idx % 97 == 3 && !it.devs.is_empty() {
+                rep.sample(json!({"class": cl.name, "devs": it.devs.iter().map(|d| format!("{}={}", d.field, d.value)).collect::<Vec<_>>(), "outcome": outcome, "comparisons": r.comparisons}));
+            }
+        }
+    }
+    rep.states = states.len() as u64;
+    rep.nontrivial = nontrivial.len() as u64;
+    rep.rule = "the deviating value does not fit the stored width of its field (integer outside [-2^(w-1), 2^w-1]; count above the count field's maximum; string/blob longer than the size field or buffer can describe); fitting values are the control group".into();
+
+    let mut failure_counts: BTreeMap<String, u64> = BTreeMap::new();
+    for (sig, v) in &failures {
+        failure_counts.insert(sig.clone(), v.len() as u64);
+        // minimal witness: fewest deviations, smallest |value|, shortest source
+        let pick = v.iter().min_by_key(|&&(idx, is_pair)| {
+            let (it, r) = if is_pair { (&pair_items[idx], pair_results[idx].as_ref().unwrap()) } else { (&items[idx], results[idx].as_ref().unwrap()) };
+            (it.devs.len(), it.devs.iter().map(|d| d.value.unsigned_abs()).max().unwrap_or(0), r.src_len)
+        }).unwrap();
+        let (it, r) = if pick.1 { (&pair_items[pick.0], pair_results[pick.0].as_ref().unwrap()) } else { (&items[pick.0], results[pick.0].as_ref().unwrap()) };
+        let cl = &cls[it.class];
+        let mut detail = witness_detail(cl, &it.devs, r, &r.failure.as_ref().unwrap().1);
+        let all_vals: Vec<String> = v.iter().take(40).map(|&(idx, p)| { let it = if p { &pair_items[idx] } else { &items[idx] }; it.devs.iter().map(|d| d.value.to_string()).collect::<Vec<_>>().join("&") }).collect();
+        detail["all_failing_values"] = json!(all_vals);
+        detail["occurrences"] = json!(v.len());
+        rep.fail(sig.clone(), detail);
+    }
+    rep.extra.insert("failure_counts".into(), json!(failure_counts));
+    rep.extra.insert("rejections_of_fitting_values".into(), json!(unexpected_rejections));
+    rep.extra.insert("fields_without_a_slot".into(), json!(no_slot_seen));
+    rep.extra.insert("per_class_cases_and_comparisons".into(), json!(per_class.iter().map(|(k, v)| json!({"class": k, "cases": v.0, "field_comparisons": v.1})).collect::<Vec<_>>()));
+    rep.extra.insert("classes".into(), json!(cls.iter().map(|c| json!({"class": c.name, "game": c.game.as_str(), "fields": c.fields.iter().map(|f| format!("{}:{}", f.name, f.bits)).collect::<Vec<_>>()})).collect::<Vec<_>>()));
+    if corrupt.is_some() { rep.extra.insert("selftest_corrupt".into(), json!("VERIF_C03_SELFTEST_CORRUPT=1: the requested value of std-10 o0.layer was perturbed in the comparison of the case layer=1")); }
+
+    if not_run > 0 { rep.cap_hit = Some(format!("wall-clock cap: {not_run} of {} cases not run", n_single + pair_items.len())); }
+    rep.exhaustive = not_run == 0;
+    rep.bound_completed = format!("D=1 over {} format classes x every listed field x its boundary value set ({} cases){}; counts up to {}",
+        cls.len(), n_single, if thorough { format!("; D=2 over all field pairs with reduced value sets ({} cases)", pair_items.len()) } else { String::new() },
+        if thorough { "65537 items" } else { "257 items (65535..65537 only in thorough)" });
+    rep.assumptions = vec![
+        "a w-bit field is taken to hold any integer in [-2^(w-1), 2^w-1]: a two's-complement reinterpretation (e.g. -1 in a u16 field read back as 65535) is NOT counted as a change; this is the same rule truth's own check_int_fits_in_bytes applies".into(),
+        "32-bit fields: the source language has 32-bit integers, values are compared modulo 2^32".into(),
+        "only fields the source sets explicitly are compared; auto-computed offsets, sizes of generated image data and defaulted fields are not".into(),
+        "fields a format has no slot for (offset_x/low_res_scale in old ANM headers, colorkey in new ones, @mask where the header has no mask, MSG flags before TH09) are reported in coverage.fields_without_a_slot, not as violations".into(),
+        "img_width/img_height are limited to [0, 200000] (has_data: \"dummy\" allocates width*height*bpp bytes) and MSG table_len to <= 65536 (truth allocates table_len entries): resource exhaustion is C04's subject".into(),
+        "M2 walkers are the independent reader; they were cross-checked against truth's readers by `truth-verif m2-selftest`".into(),
+    ];
+    rep.explanation = "Each case = (format class, one or two deviating fields with boundary values). The generator renders a complete source file and knows every value it requested; after a successful compile the file is re-read by truth (must succeed) and walked by M2, and every requested field is compared with the stored one. A compile failure must carry an error diagnostic.".into();
+    rep
+}
+
+// =============================================================================================
+// replay
+
+pub fn replay(detail: &Value) -> i32 {
+    let Some(cname) = detail["class"].as_str() else { println!("replay: no class in detail"); return 2; };
+    let cls = classes(true);
+    let Some(cl) = cls.iter().find(|c| c.name == cname) else { println!("replay: unknown class {cname}"); return 2; };
+    let devs: Vec<Dev> = detail["devs"].as_array().map(|a| a.iter().filter_map(|d| Some(Dev { field: d["field"].as_str()?.to_string(), value: d["value"].as_i64()? })).collect()).unwrap_or_default();
+    let r = render(cl, &devs);
+    println!("class {} ({:?} {}), deviations: {:?}", cl.name, cl.kind, cl.game.as_str(), devs.iter().map(|d| format!("{}={}", d.field, d.value)).collect::<Vec<_>>());
+    if r.src.len() <= 4000 { println!("--- source ---\n{}--- mapfile ---\n{}", r.src, r.mapfile); } else { println!("--- source: {} bytes (not shown) ---", r.src.len()); }
+    let corrupt = corrupt_target().and_then(|(cn, f, v, key)| (cl.name == cn && devs.len() == 1 && devs[0].field == f && devs[0].value == v).then_some(key));
+    let res = run_case(cl, &devs, corrupt);
+    println!("outcome: {}", res.outcome);
+    println!("compile diagnostics: {}", if res.diag_head.is_empty() { "<none>" } else { &res.diag_head });
+    println!("truth read-back: {}", res.readback);
+    println!("field comparisons: {}", res.comparisons);
+    for m in &res.mismatches { println!("  {}: requested {}  stored {}", m.key, m.requested, m.stored); }
+    match &res.failure {
+        Some((sig, what)) => { println!("STILL FAILS: {sig}\n  {what}"); 1 },
+        None => { println!("passes now"); 0 },
+    }
+}
